@@ -132,6 +132,7 @@ def generate(rng, n, tier, stats):
                 kk = rng.choice(['i', 'f', 'O']); labs = rand_labels(rng, ax.size, kk, 'shuf') if ax.size <= 6 else None
                 if labs is None: continue
                 op = ['set_axis', dims[i] if byname(i) else i, labs, kk, next(fresh) if rng.random() < 0.4 else None]
+                if rng.random() < 0.35: op.append('copy')      # ds = ds.set_axis(..., inplace=False): the same, on a copy
             elif k == 'replace_axis':
                 if not dims: continue
                 i = rng.randrange(len(dims)); ax = ds.axes[i]
@@ -144,7 +145,7 @@ def generate(rng, n, tier, stats):
             elif k == 'rename_keys_multi':
                 if len(have) < 2: continue
                 m = rng.sample(have, rng.randint(2, len(have)))
-                tgt = m[1:] + (m[:1] if rng.random() < 0.6 else [rng.choice(['z9', 'z8'])])
+                tgt = m[1:] + (m[:1] if rng.random() < 0.6 else [[x for x in ('z9', 'z8', 'z7', 'z6') if x not in have][0]])
                 if len(set(tgt)) != len(tgt) or any(t_ in have and t_ not in m for t_ in tgt): continue
                 op = ['rename_keys_multi', [[a_, b_] for a_, b_ in zip(m, tgt)]]
             else:
@@ -158,7 +159,8 @@ def generate(rng, n, tier, stats):
         if len(have) >= 2 and rng.random() < 0.2:
             # rename_keys with several keys at once, the new names overlapping the old ones (swap / cycle / chain)
             m = rng.sample(have, rng.randint(2, len(have)))
-            tgt = m[1:] + (m[:1] if rng.random() < 0.6 else ['z9'])
+            newname = [x for x in ('z9', 'z8', 'z7', 'z6') if x not in have][0]
+            tgt = m[1:] + (m[:1] if rng.random() < 0.6 else [newname])
             op = ['rename_keys_multi', [[a_, b_] for a_, b_ in zip(m, tgt)]]
             before = observe(ds)
             holder = [ds]; status = apply_op(holder, op); ds = holder[0]
@@ -182,7 +184,9 @@ def apply_op(holder, op):
         elif n == 'set_dims': ds.dims = tuple(op[1])
         elif n == 'rename_axes': ds.rename_axes(dict((a, b) for a, b in op[1]))
         elif n == 'set_label': ds.axes[op[1]][op[2]] = op[3]
-        elif n == 'set_axis': ds.set_axis(ops.labs_np(op[2], op[3]), axis=op[1], name=op[4])
+        elif n == 'set_axis':
+            if len(op) > 5 and op[5] == 'copy': holder[0] = ds.set_axis(ops.labs_np(op[2], op[3]), axis=op[1], name=op[4], inplace=False)
+            else: ds.set_axis(ops.labs_np(op[2], op[3]), axis=op[1], name=op[4])
         elif n == 'replace_axis': ds.axes[op[1]] = mk_axis(op[2]['name'], op[2]['labels'], op[2]['kind'])
         elif n == 'rename_key': ds.rename_keys({op[1]: op[2]})
         elif n == 'rename_keys_multi': ds.rename_keys(dict((a, b) for a, b in op[1]))
@@ -272,6 +276,13 @@ def oracle(c, res):
         if r['status'] is None and st['op'][0] == 'rename_axis':
             ref = st['op'][1]; i = ref if isinstance(ref, int) else prev['dims'].index(ref)
             if o['dims'][i] != st['op'][2]: return 'after step %d: axis %r renamed to %r, but the dataset reports dims %r' % (k, ref, st['op'][2], o['dims'])
+        if r['status'] is None and st['op'][0] == 'set_axis':
+            ref = st['op'][1]; i_ = ref if isinstance(ref, int) else (prev['dims'].index(ref) if ref in prev['dims'] else None)
+            if i_ is not None:
+                want_dims = list(prev['dims'])
+                if st['op'][4]: want_dims[i_] = st['op'][4]
+                if o['dims'] != want_dims:
+                    return 'after step %d: set_axis(%r%s) - the dataset reports dims %r, expected %r (same dimensions, same order)' % (k, ref, ', inplace=False' if len(st['op']) > 5 else '', o['dims'], want_dims)
         if st['op'][0] == 'rename_keys_multi':
             if r['status'] is not None: return 'rename_keys(%r) raised %s' % (dict(map(tuple, st['op'][1])), r['status'])
             m = dict(map(tuple, st['op'][1])); pv = {v['key']: v['arr'] for v in prev['vars']}; nv = {v['key']: v['arr'] for v in o['vars']}
